@@ -3,6 +3,7 @@ use crate::pipe::DuplexPipe;
 use crate::tcp_forwarder::TcpForwarder;
 use crate::tls_demultiplexer::Protocol;
 use crate::{core, http1_codec, http_codec, log_id, log_utils, net_utils, pipe, tunnel};
+use async_trait::async_trait;
 use bytes::{BufMut, Bytes, BytesMut};
 use std::io;
 use std::io::ErrorKind;
@@ -170,7 +171,18 @@ async fn handle_stream(
     );
     server_sink.write_all(encoded).await?;
 
-    let (mut response, chunk) = match read_response_head(server_source.as_mut()).await {
+    let mut request_body = RequestBody {
+        source: request.finalize(),
+        unsent: None,
+        finished: false,
+    };
+    let head = read_response_head(
+        server_source.as_mut(),
+        server_sink.as_mut(),
+        &mut request_body,
+    )
+    .await;
+    let (mut response, chunk) = match head {
         Ok(x) => x,
         Err(e) => {
             // the client is waiting for an answer
@@ -188,7 +200,7 @@ async fn handle_stream(
     let mut pipe = DuplexPipe::new(
         (
             pipe::SimplexDirection::Outgoing,
-            request.finalize(),
+            Box::new(request_body),
             server_sink,
         ),
         (pipe::SimplexDirection::Incoming, server_source, client_sink),
@@ -199,14 +211,84 @@ async fn handle_stream(
         .await
 }
 
-/// Read the head of the origin's response.
-/// Returns it along with the bytes that came after it.
+/// The body of the client's request on its way to the origin.
+/// It starts being forwarded while the origin's response is awaited, and the pipe carries on
+/// from where that stopped.
+struct RequestBody {
+    source: Box<dyn pipe::Source>,
+    /// The chunk the origin has not taken yet
+    unsent: Option<Bytes>,
+    /// The client has finished the request
+    finished: bool,
+}
+
+impl RequestBody {
+    /// Move the next chunk of the body to `sink`.
+    /// Nothing is lost if the returned future is dropped before it completes.
+    async fn forward(&mut self, sink: &mut dyn pipe::Sink) -> io::Result<()> {
+        match pipe::Source::read(self).await? {
+            pipe::Data::Chunk(chunk) => self.unsent = Some(chunk),
+            // the end of the request is passed on by the pipe
+            pipe::Data::Eof => return Ok(()),
+        }
+
+        sink.wait_writable().await?;
+        if let Some(chunk) = self.unsent.take() {
+            let chunk_len = chunk.len();
+            let unsent = sink.write(chunk)?;
+            self.source.consume(chunk_len - unsent.len())?;
+            if !unsent.is_empty() {
+                self.unsent = Some(unsent);
+            }
+        }
+
+        Ok(())
+    }
+}
+
+#[async_trait]
+impl pipe::Source for RequestBody {
+    fn id(&self) -> log_utils::IdChain<u64> {
+        self.source.id()
+    }
+
+    async fn read(&mut self) -> io::Result<pipe::Data> {
+        if let Some(chunk) = self.unsent.take() {
+            return Ok(pipe::Data::Chunk(chunk));
+        }
+        if self.finished {
+            return Ok(pipe::Data::Eof);
+        }
+
+        let data = self.source.read().await?;
+        self.finished = matches!(data, pipe::Data::Eof);
+        Ok(data)
+    }
+
+    fn consume(&mut self, size: usize) -> io::Result<()> {
+        self.source.consume(size)
+    }
+}
+
+/// Read the head of the origin's response. The origin may want to see the body of the request
+/// before it answers, so the body is being forwarded in the meantime.
+/// Returns the head along with the bytes that came after it.
 async fn read_response_head(
     server_source: &mut dyn pipe::Source,
+    server_sink: &mut dyn pipe::Sink,
+    request_body: &mut RequestBody,
 ) -> io::Result<(http_codec::ResponseHeaders, Bytes)> {
     let mut buffer = BytesMut::new();
     loop {
-        match server_source.read().await? {
+        let data = tokio::select! {
+            x = server_source.read() => x?,
+            x = request_body.forward(server_sink), if !request_body.finished => {
+                x?;
+                continue;
+            }
+        };
+
+        match data {
             pipe::Data::Chunk(chunk) => {
                 server_source.consume(chunk.len())?;
                 buffer.put(chunk);
